@@ -1,7 +1,9 @@
 (* Model of the text slicer that cuts one member (workflow / action) out of a
    workbook definition.
 
-   Mirrors  mistral/lang/parser.py:_parse_def_from_wb
+   Mirrors  mistral/lang/parser.py:_parse_def_from_wb  (the slicer of fix 1e28c643: the section is a key at
+              the indentation of the first key; members are the keys directly under it)
+            mistral/lang/parser.py:_key_of (the regular expression _KEY_PTRN, implemented here), _indent_of, _is_content
             mistral/lang/parser.py:get_workflow_definition  (section "workflows:", item name ++ ":")
             mistral/lang/parser.py:get_action_definition    (section "actions:",   item name ++ ":")
    Driven against the real functions by harness/suites/C14.py (suite `slice`).
@@ -59,24 +61,121 @@ Fixpoint contains (sub s : string) : bool :=
 Definition starts_hash (s : string) : bool :=
   match s with String c _ => Ascii.eqb c "#" | "" => false end.
 
-(* wb_def[wb_def.index(section):] followed by io.readline(): the lines after the
-   first line in which the section name occurs; None = ValueError (substring not found) *)
-Fixpoint after_section (sec : string) (lines : list string) : option (list string) :=
-  match lines with
-  | [] => None
-  | l :: r => if contains sec l then Some r else after_section sec r
+(* ---- _key_of: the regular expression _KEY_PTRN on one line (without its newline):
+   leading blanks, an optional quote (double or single), a lazy non-empty run of characters
+   other than the two quotes, hash and colon, the same quote again, blanks, a colon, then a
+   blank or the end ---- *)
+
+Definition is_quote (c : ascii) : bool :=
+  let n := nat_of_ascii c in Nat.eqb n 34 || Nat.eqb n 39.
+Definition is_delim (c : ascii) : bool :=
+  is_quote c || Ascii.eqb c "#" || Ascii.eqb c ":".
+
+(* longest prefix without quote, hash, colon; and the rest *)
+Fixpoint span_key (s : string) : string * string :=
+  match s with
+  | "" => ("", "")
+  | String c r => if is_delim c then ("", s)
+                  else let (a, b) := span_key r in (String c a, b)
   end.
 
-(* first loop: the first line whose strip() equals the item name;
-   yields (indentation, the line lstripped, the remaining lines) *)
-Fixpoint find_item (item : string) (lines : list string) : option (nat * string * list string) :=
-  match lines with
-  | [] => None
-  | l :: r => if String.eqb item (strip l) then Some (lead_ws l, lstrip l, r)
-              else find_item item r
+(* after the colon: whitespace or the end of the line *)
+Definition after_colon_ok (s : string) : bool :=
+  match s with "" => true | String c _ => is_ws c end.
+
+(* blanks, a colon, then a blank or the end *)
+Definition colon_follows (s : string) : bool :=
+  match lstrip s with
+  | String c r => Ascii.eqb c ":" && after_colon_ok r
+  | "" => false
   end.
 
-(* second loop: keep lines until one with same/less indentation is found *)
+(* the match that starts after the leading whitespace *)
+Definition key_main (r : string) : option string :=
+  match r with
+  | "" => None
+  | String q r' =>
+      if is_quote q then
+        let (body, rest) := span_key r' in
+        match rest with
+        | String q' after =>
+            if Ascii.eqb q q' && negb (is_empty body) && colon_follows after
+            then Some (body ++ ":") else None
+        | "" => None
+        end
+      else
+        let (body, rest) := span_key r in
+        match rest with
+        | String c after =>
+            if Ascii.eqb c ":" && after_colon_ok after && negb (is_empty (rstrip body))
+            then Some (rstrip body ++ ":") else None
+        | "" => None
+        end
+  end.
+
+Fixpoint nth_char (n : nat) (s : string) : option ascii :=
+  match s, n with
+  | "", _ => None
+  | String c _, 0 => Some c
+  | String _ r, S n' => nth_char n' r
+  end.
+
+(* a line that is only blanks, a colon, ...: the regex engine gives the last leading blank back to the key group *)
+Definition key_blank (l : string) : option string :=
+  match lead_ws l, lstrip l with
+  | S n, String c after =>
+      if Ascii.eqb c ":" && after_colon_ok after
+      then match nth_char n l with Some w => Some (String w ":") | None => None end
+      else None
+  | _, _ => None
+  end.
+
+Definition key_of (l : string) : option string :=
+  match key_main (lstrip l) with
+  | Some k => Some k
+  | None => key_blank l
+  end.
+
+Definition key_is (l item : string) : bool :=
+  match key_of l with Some k => String.eqb k item | None => false end.
+
+(* _is_content: not blank, not a comment, not the document marker *)
+Definition is_content (l : string) : bool :=
+  let t := strip l in
+  negb (is_empty t) && negb (starts_hash t) && negb (String.eqb t "---").
+
+(* first loop: the section is a key at the indentation of the first content line;
+   yields (that indentation, the lines after the section line); None = ValueError *)
+Fixpoint find_section (sec : string) (top : option nat) (lines : list string)
+  : option (nat * list string) :=
+  match lines with
+  | [] => None
+  | l :: r =>
+      if negb (is_content l) then find_section sec top r
+      else
+        let t := match top with Some t => t | None => lead_ws l end in
+        if key_is l sec && Nat.eqb (lead_ws l) t then Some (t, r)
+        else find_section sec (Some t) r
+  end.
+
+Inductive found :=
+| Found (ident : nat) (first : string) (rest : list string)
+| NotFound (rest : list string).     (* the section is over (rest = lines after the line that ended it) or the text is *)
+
+(* second loop: members are the keys at the indentation of the first content line under the section *)
+Fixpoint find_member (item : string) (top : nat) (mi : option nat) (lines : list string) : found :=
+  match lines with
+  | [] => NotFound []
+  | l :: r =>
+      if negb (is_content l) then find_member item top mi r
+      else if Nat.leb (lead_ws l) top then NotFound r
+      else
+        let m := match mi with Some m => m | None => lead_ws l end in
+        if key_is l item && Nat.eqb (lead_ws l) m then Found m (lstrip l) r
+        else find_member item top (Some m) r
+  end.
+
+(* third loop: keep lines until one with same/less indentation is found *)
 Fixpoint body (ident : nat) (lines : list string) : list string :=
   match lines with
   | [] => []
@@ -101,12 +200,12 @@ Fixpoint join_lines (ls : list string) : string :=
 Definition finish (ls : list string) : string := rstrip (join_lines ls) ++ nl.
 
 Definition slice_lines (sec item : string) (lines : list string) : option (list string) :=
-  match after_section sec lines with
+  match find_section sec None lines with
   | None => None
-  | Some r =>
-      Some (match find_item item r with
-            | None => []
-            | Some (ident, first, rest) => first :: body ident rest
+  | Some (top, r) =>
+      Some (match find_member item top None r with
+            | Found ident first rest => first :: body ident rest
+            | NotFound rest => body 0 rest          (* the third loop still runs, with ident = 0 *)
             end)
   end.
 
@@ -142,11 +241,27 @@ Definition body_line_ok (b : string) : bool :=
 Definition ends_member (k : nat) (l : string) : bool :=
   negb (is_empty (strip l)) && negb (starts_hash (strip l)) && Nat.leb (lead_ws l) k.
 
-Definition no_line_is (item : string) (lines : list string) : bool :=
-  forallb (fun l => negb (String.eqb item (strip l))) lines.
+(* indentation of the first content line *)
+Fixpoint first_indent (lines : list string) : option nat :=
+  match lines with
+  | [] => None
+  | l :: r => if is_content l then Some (lead_ws l) else first_indent r
+  end.
 
-Definition no_line_contains (sec : string) (lines : list string) : bool :=
-  forallb (fun l => negb (contains sec l)) lines.
+Definition indent_is (o : option nat) (k : nat) : bool :=
+  match o with Some t => Nat.eqb t k | None => true end.
+
+(* the lines before the section line: none of them is the section key at the top indentation *)
+Definition header_ok (sec : string) (top : nat) (header : list string) : bool :=
+  indent_is (first_indent header) top &&
+  forallb (fun l => negb (is_content l) || negb (key_is l sec && Nat.eqb (lead_ws l) top)) header.
+
+(* the lines between the section line and the member: they stay inside the section (deeper than
+   top), the members among them are at indentation k and none of those is called like the item *)
+Definition before_ok (item : string) (top k : nat) (before : list string) : bool :=
+  indent_is (first_indent before) k &&
+  forallb (fun l => negb (is_content l) ||
+                    (Nat.ltb top (lead_ws l) && negb (key_is l item && Nat.eqb (lead_ws l) k))) before.
 
 (* compares with an expected text given as lines (used by the correspondence suite) *)
 Definition slice_is (sec item : string) (lines expected : list string) : bool :=
